@@ -197,4 +197,69 @@ def r_constfold(toks):
         out.append(t); i += 1
     return out, n
 
-RULES = {"constfold": r_constfold, "be": r_be, "vis": r_vis, "static": r_static, "attr": r_attr, "mutfull": r_mutfull, "noderive": r_derive_drop}
+def r_cratepath(toks):
+    """`crate::a::b::NAME` / `self::a::NAME` -> `NAME` (the generated file is one flat module)"""
+    out = []; n = 0; i = 0
+    while i < len(toks):
+        t = toks[i]
+        if t.kind == "ident" and t.text in ("crate",) and i + 2 < len(toks) and seq_at(toks, i + 1, "::"):
+            j = i
+            while j + 3 < len(toks) and toks[j].kind == "ident" and seq_at(toks, j + 1, "::") and toks[j + 3].kind == "ident" and seq_at(toks, j + 4, "::") if j + 5 < len(toks) else False:
+                j += 3
+            # now toks[j] :: toks[j+3] is the last segment pair; drop everything up to toks[j+3]
+            last = toks[j + 3]
+            last.ws = t.ws
+            out.append(last); n += 1; i = j + 4; continue
+        out.append(t); i += 1
+    return out, n
+
+def r_asserteq(toks):
+    """`assert_eq!(A, B)` -> `assert!((A) == (B))`, `assert_ne!` likewise (Verus has no spec for the panic machinery of assert_eq)"""
+    out = []; n = 0; i = 0
+    while i < len(toks):
+        t = toks[i]
+        if t.kind == "ident" and t.text in ("assert_eq", "assert_ne") and i + 2 < len(toks) and toks[i + 1].text == "!" and toks[i + 2].text == "(":
+            e = match_close(toks, i + 2)
+            args = toks[i + 3:e]
+            depth = 0; cut = None
+            for k, x in enumerate(args):
+                if x.kind == "punct":
+                    if x.text in "([{": depth += 1
+                    elif x.text in ")]}": depth -= 1
+                    elif x.text == "," and depth == 0 and cut is None: cut = k
+            if cut is not None:
+                a = args[:cut]; b = args[cut + 1:]
+                # a trailing message argument is dropped
+                depth = 0
+                for k, x in enumerate(b):
+                    if x.kind == "punct":
+                        if x.text in "([{": depth += 1
+                        elif x.text in ")]}": depth -= 1
+                        elif x.text == "," and depth == 0: b = b[:k]; break
+                op = "==" if t.text == "assert_eq" else "!="
+                new = [_mk("assert", t.ws, t), _mk("!", "", t), _mk("(", "", t), _mk("(", "", t)] + a + [_mk(")", "", t), _mk(op[0], " ", t), _mk(op[1], "", t), _mk("(", " ", t)] + b + [_mk(")", "", t), _mk(")", "", t)]
+                out += new; n += 1; i = e + 1; continue
+        out.append(t); i += 1
+    return out, n
+
+RULES = {"asserteq": r_asserteq, "cratepath": r_cratepath, "constfold": r_constfold, "be": r_be, "vis": r_vis, "static": r_static, "attr": r_attr, "mutfull": r_mutfull, "noderive": r_derive_drop}
+
+def apply_text(toks, pairs, counts):
+    """unit-declared token-sequence replacements (//@rewrite-text A ==> B): constructs outside the Verus subset are
+    replaced by calls to shims whose body is the replaced expression; every site is counted."""
+    from .rstok import tokenize
+    for a, b in pairs:
+        at, _ = tokenize(a); bt, _ = tokenize(b)
+        pat = [t.text for t in at]
+        i = 0; out = []; n = 0
+        while i < len(toks):
+            if [t.text for t in toks[i:i + len(pat)]] == pat:
+                ws = toks[i].ws
+                for k, t in enumerate(bt):
+                    nt = Tok(t.text, ws if k == 0 else t.ws, t.kind, toks[i].line); out.append(nt)
+                n += 1; i += len(pat); continue
+            out.append(toks[i]); i += 1
+        toks = out
+        key = "text:" + a
+        counts[key] = counts.get(key, 0) + n
+    return toks
